@@ -25,7 +25,7 @@ from geometer.point import (
     join,
     meet,
 )
-from geometer.utils import det, matvec, orth
+from geometer.utils import det, is_multiple, matvec, orth
 
 if TYPE_CHECKING:
     from geometer.shapes import PolytopeTensor
@@ -52,8 +52,12 @@ def crossratio(
         NotCollinear: If four points are supplied that are not collinear.
 
     """
-    if a == b:
-        return np.ones(a.shape[: a.free_indices])
+    # positions where a and b coincide have cross ratio 1 (element by element for collections)
+    same = is_multiple(
+        a.array, b.array, axis=tuple(range(a.free_indices - a.rank, 0)), rtol=EQ_TOL_REL, atol=EQ_TOL_ABS
+    )
+    if np.all(same):
+        return np.ones(np.shape(same))
 
     if (
         isinstance(a, LineTensor)
@@ -61,7 +65,7 @@ def crossratio(
         and isinstance(c, LineTensor)
         and isinstance(d, LineTensor)
     ):
-        if not np.all(is_concurrent(a, b, c, d)):
+        if not np.all(is_concurrent(a, b, c, d) | same):
             raise NotConcurrent("The lines are not concurrent: " + str([a, b, c, d]))
 
         if a.dim > 2:
@@ -103,7 +107,7 @@ def crossratio(
             collinear = l.contains(c) & l.contains(d)
         else:
             collinear = is_collinear(a, b, c, d)
-        if not np.all(collinear):
+        if not np.all(collinear | same):
             raise NotCollinear("The points are not collinear: " + str([a, b, c, d]))
 
         basis = np.stack([a.array, b.array], axis=-2)
@@ -126,7 +130,7 @@ def crossratio(
     bc = det(np.stack([*o, b, c], axis=-2))
 
     with np.errstate(divide="ignore", invalid="ignore"):
-        return ac * bd / (ad * bc)
+        return np.where(same, 1, ac * bd / (ad * bc))
 
 
 def harmonic_set(a: PointTensor, b: PointTensor, c: PointTensor) -> PointTensor:
